@@ -79,7 +79,7 @@ PROPS.update({
         level_note=COMMON_NOTE + "Concurrency: draws are serialised by the multi write lock (lock-trace correspondence of C08).",
         ),
     "C03": dict(
-        streams=[dict(cmd="C03"), dict(cmd="C03b"), dict(cmd="ROWS")],
+        streams=[dict(cmd="C03"), dict(cmd="C03b"), dict(cmd="ROWS"), dict(cmd="C03H", oracle_only=True)],
         technique="Lean 4 invariant proof over every operation history of a row-level model of MultiState (validated against the real terminal) + per-redraw terminal refinement + log-preservation oracle",
         level_text="For every history of MultiProgress/bar operations and every limiter state, the row-level model of MultiState's accounting is proved never to touch a row above the "
                    "last z+n rows and to append every printed line there (C03_rows_above_never_touched, C03_log_preserved); one redraw with erase count n is proved on the terminal model "
